@@ -199,10 +199,10 @@ func solveOne(r *FuncResult, o *Obligation, opt solveOpts) {
 			if strings.SplitN(s.Name, "/", 2)[0] == strings.SplitN(o.Backend, "/", 2)[0] {
 				continue
 			}
-			if tries++; tries > 2 {
-				break // confirmation is best effort: two other back ends, 30 s each
+			if tries++; tries > 1 {
+				break // confirmation is best effort: one back end of another family, 10 s
 			}
-			c := portfolio(file, opt.seed, min(30, opt.timeoutS), s.Name)
+			c := portfolio(file, opt.seed, min(10, opt.timeoutS), s.Name)
 			if c.verdict == "sat" {
 				o.Result = "disagree"
 				o.Detail += "\nsecond solver " + s.Name + " answered sat"
